@@ -8,16 +8,22 @@ import Pfst.Offset
 
 Property theorems about the model of the raw reparse (`Pfst/Raw.lean`).
 
-FULL STATEMENT (properties.jsonl C10), for the model: for every parser `parse`, state, rectangle and text,
-  `runBase` raises and leaves the state untouched, or the lines are the requested splice and
-  `tree' = fullParse lines'`; it succeeds iff `fullParse lines'` succeeds.
-The full statement is FALSE of the code that exists (and of this model of it): see `reparse_eq_full_false` and
-`accepts_iff_valid_false`.  What is proved: atomicity and the text part unconditionally (`reparse_atomic`,
-`reparse_src`), success iff the WRAPPER parses (`reparse_ok_iff_wrapper_parses`), the geometry of the wrapper
-(`wrapper_cols`, `wrapper_bytes`), and tree equality under the explicit parser-side hypotheses `ParseLocal` and
-`AncestorEndsStable` (`reparse_eq_full_partial`).  Missing for the full statement: both hypotheses are false for some
-inputs (the parser is not compositional on the region chosen from the OLD tree, and ancestors that end with the region do
-not have their end recomputed).
+FULL STATEMENT (properties.jsonl C10), for the model: for every parser, state, rectangle and text, `runRaw` raises and
+leaves the state untouched, or the lines are the requested splice and `tree' = fullParse lines'`; it succeeds iff
+`fullParse lines'` succeeds.
+
+The model describes the REPAIRED code (fixes C10-F1, C10-F6, C10-F4, C10-F2): the incremental statement-level result is
+used only when the wrapper parses, the node is found and the guard holds (exactly one node of the same kind at the same
+place, nothing after it); in every other case nothing has been touched and the whole source is reparsed with the root's
+own mode.  Proved in full: atomicity, the text part, "refused only if the new source is invalid" and "a valid new source
+is accepted" (`raw_atomic`, `raw_src`, `raw_refuses_only_invalid`, `raw_valid_accepted`), whole-source fallback = full
+parse (`raw_fallback_is_full_parse`), the geometry of the wrapper, the registry statements.  Still partial: "accepted
+only if valid" and "tree = full parse" on the incremental path need that the guard implies locality of the parser
+(`GuardSound`; at tree level `ParseLocal` + ancestor ends, `reparse_eq_full_partial`); the guard is shown to refuse the
+incremental result on every recorded witness of the former findings (`guard_rejects_known_witnesses`), and the former
+counterexamples are now positive statements (`reparse_eq_full_f6`, `f8_invalid_edit_refused`, `f9_valid_edit_accepted`).
+Not covered: a statement that starts at (0,1)..(0,3) is still refused with NotImplementedError (`plan` = `.error
+.degenerate`, finding C10-F7, pinned by the test-suite).
 -/
 namespace Pfst.C10
 open Pfst.Raw
@@ -132,6 +138,128 @@ theorem reparse_ok_iff_wrapper_parses {T W : Type} (parse : Lines → Option W) 
     (runBase parse fix st p.copyLines new r).raised = false ↔ (parse (handed p new r)).isSome = true := by
   unfold handed runBase
   cases h : parse (putSrc p.copyLines new r) <;> simp [h]
+
+/-! ## the repaired entry: incremental attempt, guard, whole-source fallback -/
+
+theorem runBase_none {T W : Type} (parse : Lines → Option W) (fix : T → W → T) (st : St T) (copy new : Lines) (r : Rect)
+    (h : parse (putSrc copy new r) = none) :
+    runBase parse fix st copy new r = { self := st, copy := putSrc copy new r, raised := true } := by
+  simp [runBase, h]
+
+theorem runBase_some {T W : Type} (parse : Lines → Option W) (fix : T → W → T) (st : St T) (copy new : Lines) (r : Rect)
+    (w : W) (h : parse (putSrc copy new r) = some w) :
+    runBase parse fix st copy new r =
+      { self := { lines := putSrc st.lines new r, tree := fix st.tree w }, copy := putSrc copy new r, raised := false } := by
+  simp [runBase, h]
+
+/-- The three ways `runRaw` can go. -/
+theorem runRaw_cases {T W : Type} (parse : Lines → Option W) (guard : W → Bool) (fix : T → W → T)
+    (parseFull : Lines → Option T) (st : St T) (copy new : Lines) (r : Rect) :
+    (∃ w, parse (putSrc copy new r) = some w ∧ guard w = true ∧
+        runRaw parse guard fix parseFull st copy new r =
+          { self := { lines := putSrc st.lines new r, tree := fix st.tree w }, copy := putSrc copy new r, raised := false })
+    ∨ (∃ t, parseFull (putSrc st.lines new r) = some t ∧
+        runRaw parse guard fix parseFull st copy new r =
+          { self := { lines := putSrc st.lines new r, tree := t }, copy := putSrc st.lines new r, raised := false })
+    ∨ (parseFull (putSrc st.lines new r) = none ∧
+        runRaw parse guard fix parseFull st copy new r = { self := st, copy := putSrc st.lines new r, raised := true }) := by
+  have whole : (∃ t, parseFull (putSrc st.lines new r) = some t ∧
+        runBase parseFull (fun _ t => t) st st.lines new r =
+          { self := { lines := putSrc st.lines new r, tree := t }, copy := putSrc st.lines new r, raised := false })
+      ∨ (parseFull (putSrc st.lines new r) = none ∧
+        runBase parseFull (fun _ t => t) st st.lines new r = { self := st, copy := putSrc st.lines new r, raised := true }) := by
+    cases hf : parseFull (putSrc st.lines new r) with
+    | none => exact .inr ⟨rfl, runBase_none _ _ _ _ _ _ hf⟩
+    | some t => exact .inl ⟨t, rfl, runBase_some _ _ _ _ _ _ t hf⟩
+  unfold runRaw
+  cases hp : parse (putSrc copy new r) with
+  | none => simp only; exact .inr whole
+  | some w =>
+    simp only
+    cases hg : guard w with
+    | false => simp only [Bool.false_eq_true, if_false]; exact .inr whole
+    | true => simp only [if_true]; exact .inl ⟨w, rfl, hg, runBase_some _ _ _ _ _ _ w hp⟩
+
+/-- **raw_atomic**: if the operation raises, source and tree are exactly as before. -/
+theorem raw_atomic {T W : Type} (parse : Lines → Option W) (guard : W → Bool) (fix : T → W → T)
+    (parseFull : Lines → Option T) (st : St T) (copy new : Lines) (r : Rect)
+    (h : (runRaw parse guard fix parseFull st copy new r).raised = true) :
+    (runRaw parse guard fix parseFull st copy new r).self = st := by
+  rcases runRaw_cases parse guard fix parseFull st copy new r with ⟨w, _, _, e⟩ | ⟨t, _, e⟩ | ⟨_, e⟩
+  · rw [e] at h; simp at h
+  · rw [e] at h; simp at h
+  · rw [e]
+
+/-- **raw_src**: if it returns, the source is the requested splice. -/
+theorem raw_src {T W : Type} (parse : Lines → Option W) (guard : W → Bool) (fix : T → W → T)
+    (parseFull : Lines → Option T) (st : St T) (copy new : Lines) (r : Rect)
+    (h : (runRaw parse guard fix parseFull st copy new r).raised = false) :
+    (runRaw parse guard fix parseFull st copy new r).self.lines = putSrc st.lines new r := by
+  rcases runRaw_cases parse guard fix parseFull st copy new r with ⟨w, _, _, e⟩ | ⟨t, _, e⟩ | ⟨_, e⟩
+  · rw [e]
+  · rw [e]
+  · rw [e] at h; simp at h
+
+/-- **raw_refuses_only_invalid** (full strength, was false before the repair: findings F4, F5): the operation raises
+only if the whole new source does not parse. -/
+theorem raw_refuses_only_invalid {T W : Type} (parse : Lines → Option W) (guard : W → Bool) (fix : T → W → T)
+    (parseFull : Lines → Option T) (st : St T) (copy new : Lines) (r : Rect)
+    (h : (runRaw parse guard fix parseFull st copy new r).raised = true) :
+    parseFull (putSrc st.lines new r) = none := by
+  rcases runRaw_cases parse guard fix parseFull st copy new r with ⟨w, _, _, e⟩ | ⟨t, _, e⟩ | ⟨hf, _⟩
+  · rw [e] at h; simp at h
+  · rw [e] at h; simp at h
+  · exact hf
+
+/-- **raw_valid_accepted**: a valid new source is always accepted. -/
+theorem raw_valid_accepted {T W : Type} (parse : Lines → Option W) (guard : W → Bool) (fix : T → W → T)
+    (parseFull : Lines → Option T) (st : St T) (copy new : Lines) (r : Rect)
+    (h : (parseFull (putSrc st.lines new r)).isSome = true) :
+    (runRaw parse guard fix parseFull st copy new r).raised = false := by
+  cases hr : (runRaw parse guard fix parseFull st copy new r).raised with
+  | false => rfl
+  | true => rw [raw_refuses_only_invalid parse guard fix parseFull st copy new r hr] at h; simp at h
+
+/-- **raw_fallback_is_full_parse**: whenever the incremental result is not used (wrapper rejected, node not found, guard
+false) and the operation returns, the tree IS the full parse of the new source. -/
+theorem raw_fallback_is_full_parse {T W : Type} (parse : Lines → Option W) (guard : W → Bool) (fix : T → W → T)
+    (parseFull : Lines → Option T) (st : St T) (copy new : Lines) (r : Rect)
+    (hno : ∀ w, parse (putSrc copy new r) = some w → guard w = false)
+    (h : (runRaw parse guard fix parseFull st copy new r).raised = false) :
+    parseFull (putSrc st.lines new r) = some (runRaw parse guard fix parseFull st copy new r).self.tree := by
+  rcases runRaw_cases parse guard fix parseFull st copy new r with ⟨w, hp, hg, _⟩ | ⟨t, hf, e⟩ | ⟨_, e⟩
+  · rw [hno w hp] at hg; simp at hg
+  · rw [e]; exact hf
+  · rw [e] at h; simp at h
+
+/-- **GuardSound**: what is still assumed of the external parser on the incremental path: if the wrapper parses to `w` and
+the guard accepts `w`, then the whole new source parses to the tree the graft produces.  (At tree level this is
+`reparse_eq_full_partial`.) -/
+def GuardSound {T W : Type} (parse : Lines → Option W) (guard : W → Bool) (fix : T → W → T)
+    (parseFull : Lines → Option T) (st : St T) (copy new : Lines) (r : Rect) : Prop :=
+  ∀ w, parse (putSrc copy new r) = some w → guard w = true → parseFull (putSrc st.lines new r) = some (fix st.tree w)
+
+/-- **raw_eq_full_partial**: under `GuardSound`, whenever the operation returns the tree is the full parse of the new
+source. -/
+theorem raw_eq_full_partial {T W : Type} (parse : Lines → Option W) (guard : W → Bool) (fix : T → W → T)
+    (parseFull : Lines → Option T) (st : St T) (copy new : Lines) (r : Rect)
+    (gs : GuardSound parse guard fix parseFull st copy new r)
+    (h : (runRaw parse guard fix parseFull st copy new r).raised = false) :
+    parseFull (putSrc st.lines new r) = some (runRaw parse guard fix parseFull st copy new r).self.tree := by
+  rcases runRaw_cases parse guard fix parseFull st copy new r with ⟨w, hp, hg, e⟩ | ⟨t, hf, e⟩ | ⟨_, e⟩
+  · rw [e]; exact gs w hp hg
+  · rw [e]; exact hf
+  · rw [e] at h; simp at h
+
+/-- **raw_ok_iff_valid_partial**: under `GuardSound` the operation succeeds exactly when the new whole source is valid.
+(The direction "valid → succeeds" needs no hypothesis: `raw_valid_accepted`.) -/
+theorem raw_ok_iff_valid_partial {T W : Type} (parse : Lines → Option W) (guard : W → Bool) (fix : T → W → T)
+    (parseFull : Lines → Option T) (st : St T) (copy new : Lines) (r : Rect)
+    (gs : GuardSound parse guard fix parseFull st copy new r) :
+    (runRaw parse guard fix parseFull st copy new r).raised = false ↔ (parseFull (putSrc st.lines new r)).isSome = true := by
+  constructor
+  · intro h; rw [raw_eq_full_partial parse guard fix parseFull st copy new r gs h]; rfl
+  · exact raw_valid_accepted parse guard fix parseFull st copy new r
 
 /-! ## the tree -/
 
@@ -257,24 +385,25 @@ theorem ctx_eq (o : Off) (ctx ctxR : List Frame) (h1 : Forall2 (FrameLocal o) ct
     | cons he ht =>
       rw [List.map_cons, frame_eq o _ _ hf he, ih ht]
 
-/-- **reparse_eq_full_partial**: for a whole-statement reparse that is not the `elif` case, if the parser is local on the
-region (`ParseLocal`) and no ancestor's end depends on the region's new end (`AncestorEndsStable`), the tree left by the
-operation IS the full parse of the new source — every kind, every position. -/
+/-- **reparse_eq_full_partial**: for a whole-statement graft, if the parser is local on the region (`ParseLocal`), no
+ancestor ends exactly with the old node (`tailIdx = none`, so `_set_end_pos` is not called) and the ancestors' ends move
+as text moves (`AncestorEndsStable`), the tree left by the operation IS the full parse of the new source — every kind,
+every position.  (The case where an ancestor does end with the node is `reparse_eq_full_f6`.) -/
 theorem reparse_eq_full_partial (o : Off) (m : TreeMode) (z : Zip) (sub full : Node)
-    (hm : m.setAst = true) (he : m.isElif = false)
+    (hm : m.setAst = true) (ht : tailIdx z.focus.endPtD z.ctx 0 = none)
     (ctxR : List Frame) (pl : ParseLocal o m z sub full ctxR) (aes : AncestorEndsStable o z ctxR) :
     (reparseTree o m z sub).tree = full := by
   rw [pl.1, ctx_eq o z.ctx ctxR pl.2 aes]
-  simp [reparseTree, hm, he, Zip.tree]
+  simp [reparseTree, hm, ht, Zip.tree]
 
-/-! ## the full statement is false -/
+/-! ## the former counterexamples, now positive -/
 
 /-- F6 instance (kinds: 0 Module, 1 If, 2 Name, 3 Expr).  Source `if a:\n    bc`, `put_src('#', 1, 5, 1, 5)` gives
 `if a:\n    b#c`.  The region is the statement `bc`; the wrapper `if _:\n    b#c` parses to `Expr(Name b)` at
 (2,4)-(2,5).  `_offset` moves the end of the enclosing `If` from (2,6) to (2,7); CPython's full parse has (2,5). -/
 def f6Off : Off := paramsOffset 1 1 1 5 1 5
-def f6Mode : TreeMode := { setAst := true, isElif := false, firstLineno := 2, delta := 0, nOldHead := 0, nNewHead := 0,
-                           noEndCopy := false }
+def f6Mode : TreeMode := { setAst := true, firstLineno := 2, delta := 0, nOldHead := 0, nNewHead := 0,
+                           noEndCopy := false, follows := false }
 def f6Zip : Zip :=
   { ctx := [{ kind := 1, pos := some ⟨1, 0, 2, 6⟩, left := [.mk 2 (some ⟨1, 3, 1, 4⟩) []], right := [] },
             { kind := 0, pos := none, left := [], right := [] }],
@@ -286,14 +415,17 @@ def f6CtxR : List Frame :=
   [{ kind := 1, pos := some ⟨1, 0, 2, 5⟩, left := [.mk 2 (some ⟨1, 3, 1, 4⟩) []], right := [] },
    { kind := 0, pos := none, left := [], right := [] }]
 
-/-- **reparse_eq_full_false**: a concrete instance where the parser IS local on the region (`ParseLocal` holds with the
-context `f6CtxR`) but the enclosing `If` ends with the region (`AncestorEndsStable` fails) and the tree left by the
-operation differs from the full parse: the full statement is false. -/
-theorem reparse_eq_full_false :
+/-- **reparse_eq_full_f6** (was `reparse_eq_full_false` before fix C10-F1): on the F6 instance the parser is local on
+the region, the enclosing `If` ends with the region so its end does NOT simply move with the text
+(`AncestorEndsStable` fails) — and the repaired operation, which re-propagates the end of the new node to the ancestors
+that ended with the old one, leaves exactly the full parse. The guard accepts the instance. -/
+theorem reparse_eq_full_f6 :
     ParseLocal f6Off f6Mode f6Zip f6Sub f6Full f6CtxR
     ∧ ¬ AncestorEndsStable f6Off f6Zip f6CtxR
-    ∧ (reparseTree f6Off f6Mode f6Zip f6Sub).tree ≠ f6Full := by
-  refine ⟨⟨by rfl, ?_⟩, ?_, ?_⟩
+    ∧ tailIdx f6Zip.focus.endPtD f6Zip.ctx 0 = some 0
+    ∧ guardOk f6Mode f6Zip.focus (applyDelta f6Mode.firstLineno f6Mode.delta f6Sub) = true
+    ∧ (reparseTree f6Off f6Mode f6Zip f6Sub).tree = f6Full := by
+  refine ⟨⟨by rfl, ?_⟩, ?_, by decide, by decide, by rfl⟩
   · refine .cons ?_ (.cons ?_ .nil)
     · refine ⟨rfl, rfl, rfl, ?_⟩
       simp only [startsBefore, f6Off, paramsOffset]
@@ -304,13 +436,27 @@ theorem reparse_eq_full_false :
     | cons h _ =>
       simp only [FrameEndStable, f6Off, paramsOffset, movePt] at h
       revert h; decide
-  · intro h
-    have := congrArg flatten h
-    revert this; decide
 
-/-- With the repair candidate (`_set_end_pos` after every whole-statement graft, as the code already does for `elif`)
-the F6 instance comes out equal to the full parse. -/
-theorem reparse_eq_full_fixed_f6 : (reparseTreeFixed f6Off f6Mode f6Zip f6Sub).tree = f6Full := by rfl
+/-- A trailing semicolon belongs to the enclosing compound statement but not to the simple statement: `def g():\n    z;`
+has `z` end at (2,5) and the `FunctionDef` at (2,6).  `_tail_parent` then answers `None` and the ancestor keeps its
+(offset) end: re-parsing `z` in place leaves the tree as it was. (kinds: 4 FunctionDef) -/
+theorem tail_not_past_semicolon :
+    tailIdx (some (2, 5)) [{ kind := 4, pos := some ⟨1, 0, 2, 6⟩, left := [], right := [] },
+                           { kind := 0, pos := none, left := [], right := [] }] 0 = none := by decide
+
+/-- **guard_rejects_known_witnesses**: on the recorded witnesses of the former findings the guard refuses the incremental
+result, so the whole source decides (`raw_fallback_is_full_parse`).
+F2 `x` <- `y\n` at (0,0): the wrapper `y\nx` has a second statement after the node (`follows`).
+F3 `def f():\n  a\n  b` <- four spaces before `a`: the node starts at byte column 6 instead of 2.
+F8 `m; ` <- `class K:` at (0,0): the node is a `ClassDef` (kind 5), the old one an `Expr` (kind 3). -/
+theorem guard_rejects_known_witnesses :
+    guardOk { f6Mode with firstLineno := 0, follows := true } (.mk 3 (some ⟨1, 0, 1, 1⟩) [.mk 2 (some ⟨1, 0, 1, 1⟩) []])
+        (.mk 3 (some ⟨1, 0, 1, 1⟩) [.mk 2 (some ⟨1, 0, 1, 1⟩) []]) = false
+    ∧ guardOk f6Mode (.mk 3 (some ⟨2, 2, 2, 3⟩) [.mk 2 (some ⟨2, 2, 2, 3⟩) []])
+        (.mk 3 (some ⟨2, 6, 2, 7⟩) [.mk 2 (some ⟨2, 6, 2, 7⟩) []]) = false
+    ∧ guardOk { f6Mode with firstLineno := 0 } (.mk 3 (some ⟨1, 0, 1, 1⟩) [.mk 2 (some ⟨1, 0, 1, 1⟩) []])
+        (.mk 5 (some ⟨1, 0, 1, 9⟩) [.mk 3 (some ⟨1, 8, 1, 9⟩) [.mk 2 (some ⟨1, 8, 1, 9⟩) []]]) = false := by
+  decide
 
 /-- F8 / F9 instances (text level).  F8: `def f():\n  a\n  b`, `put_src('    ', 1, 2, 1, 2)` (four spaces inserted before `a`): the region
 is the statement `a` and its wrapper `if _:\n      a` is valid, the whole new source `def f():\n      a\n  b` is not
@@ -331,47 +477,49 @@ def f9New : Lines := [[], []]
 def f8Plan : Plan := match plan f8Lines f8Facts 1 2 with | .ok p => p | .error _ => default
 def f9Plan : Plan := match plan f9Lines f9Facts 0 11 with | .ok p => p | .error _ => default
 
-/-- **accepts_iff_valid_false**: the text the operation's success depends on is not the whole new source: in the F8
-instance the parser is handed `if _:` / `      a` while the new source is `def f():` / `      a` / `  b`; in the F9
-instance it is handed `try:   y ` / `2` / `finally: pass` while the new source is `x = 1; y ` / `2`.  So for any parser
-that accepts the first text of F8 and rejects the second (CPython does; checked by the harness on every run), the
-operation succeeds on an invalid source, and for F9 it refuses a valid one: "succeeds iff the new source is valid" is
-false. -/
-theorem accepts_iff_valid_false {T W : Type} (parse : Lines → Option W) (fix : T → W → T) (t : T) :
-    (∃ p, plan f8Lines f8Facts 1 2 = .ok p
-        ∧ handed p f8New f8Rect = ["if _:".toList, "      a".toList]
-        ∧ putSrc f8Lines f8New f8Rect = ["def f():".toList, "      a".toList, "  b".toList]
-        ∧ ((parse ["if _:".toList, "      a".toList]).isSome = true →
-           parse ["def f():".toList, "      a".toList, "  b".toList] = none →
-           (runBase parse fix ⟨f8Lines, t⟩ p.copyLines f8New f8Rect).raised = false
-           ∧ parse (runBase parse fix ⟨f8Lines, t⟩ p.copyLines f8New f8Rect).self.lines = none))
-    ∧ (∃ p, plan f9Lines f9Facts 0 11 = .ok p
-        ∧ handed p f9New f9Rect = ["try:   y ".toList, "2".toList, "finally: pass".toList]
-        ∧ putSrc f9Lines f9New f9Rect = ["x = 1; y ".toList, "2".toList]
-        ∧ (parse ["try:   y ".toList, "2".toList, "finally: pass".toList] = none →
-           (parse ["x = 1; y ".toList, "2".toList]).isSome = true →
-           (runBase parse fix ⟨f9Lines, t⟩ p.copyLines f9New f9Rect).raised = true
-           ∧ (parse (putSrc f9Lines f9New f9Rect)).isSome = true)) := by
-  constructor
-  · refine ⟨f8Plan, by rfl, by decide, by decide, ?_⟩
-    intro h1 h2
-    have hh : handed f8Plan f8New f8Rect = ["if _:".toList, "      a".toList] := by decide
-    obtain ⟨w, hw⟩ := Option.isSome_iff_exists.mp h1
-    have hp : parse (putSrc f8Plan.copyLines f8New f8Rect) = some w := by
-      have := hh; unfold handed at this; rw [this]; exact hw
-    have hs := reparse_src parse fix ⟨f8Lines, t⟩ f8Plan.copyLines f8New f8Rect w hp
-    refine ⟨hs.2.2, ?_⟩
-    rw [hs.1]
-    have : putSrc f8Lines f8New f8Rect = ["def f():".toList, "      a".toList, "  b".toList] := by decide
-    rw [this]; exact h2
-  · refine ⟨f9Plan, by rfl, by decide, by decide, ?_⟩
-    intro h1 h2
-    have hh : handed f9Plan f9New f9Rect = ["try:   y ".toList, "2".toList, "finally: pass".toList] := by decide
-    have hp : parse (putSrc f9Plan.copyLines f9New f9Rect) = none := by
-      have := hh; unfold handed at this; rw [this]; exact h1
-    refine ⟨(reparse_atomic parse fix ⟨f9Lines, t⟩ f9Plan.copyLines f9New f9Rect hp).2, ?_⟩
-    have : putSrc f9Lines f9New f9Rect = ["x = 1; y ".toList, "2".toList] := by decide
-    rw [this]; exact h2
+
+/-- **f8_invalid_edit_refused** (was one half of `accepts_iff_valid_false`): in the F8 instance the wrapper text
+`if _:` / `      a` still parses, but the guard refuses the result (the statement no longer starts where it did), the
+whole new source `def f():` / `      a` / `  b` is handed to the parser, and since that is invalid the operation raises
+and nothing has changed. -/
+theorem f8_invalid_edit_refused {T W : Type} (parse : Lines → Option W) (guard : W → Bool) (fix : T → W → T)
+    (parseFull : Lines → Option T) (t : T) (w : W)
+    (h1 : parse ["if _:".toList, "      a".toList] = some w) (hg : guard w = false)
+    (h2 : parseFull ["def f():".toList, "      a".toList, "  b".toList] = none) :
+    plan f8Lines f8Facts 1 2 = .ok f8Plan
+    ∧ handed f8Plan f8New f8Rect = ["if _:".toList, "      a".toList]
+    ∧ (runRaw parse guard fix parseFull ⟨f8Lines, t⟩ f8Plan.copyLines f8New f8Rect).raised = true
+    ∧ (runRaw parse guard fix parseFull ⟨f8Lines, t⟩ f8Plan.copyLines f8New f8Rect).self = ⟨f8Lines, t⟩ := by
+  have hh : putSrc f8Plan.copyLines f8New f8Rect = ["if _:".toList, "      a".toList] := by decide
+  have hs : putSrc f8Lines f8New f8Rect = ["def f():".toList, "      a".toList, "  b".toList] := by decide
+  refine ⟨by rfl, hh, ?_⟩
+  rcases runRaw_cases parse guard fix parseFull ⟨f8Lines, t⟩ f8Plan.copyLines f8New f8Rect with
+    ⟨w', hp, hg', _⟩ | ⟨t', hf, _⟩ | ⟨_, e⟩
+  · rw [hh, h1] at hp; cases hp; rw [hg] at hg'; cases hg'
+  · simp only at hf; rw [hs, h2] at hf; cases hf
+  · rw [e]; exact ⟨rfl, rfl⟩
+
+/-- **f9_valid_edit_accepted** (was the other half): in the F9 instance the wrapper text `try:   y ` / `2` /
+`finally: pass` is rejected, the whole new source `x = 1; y ` / `2` is handed to the parser, and the operation returns
+with exactly that parse and the spliced source. -/
+theorem f9_valid_edit_accepted {T W : Type} (parse : Lines → Option W) (guard : W → Bool) (fix : T → W → T)
+    (parseFull : Lines → Option T) (t tR : T)
+    (h1 : parse ["try:   y ".toList, "2".toList, "finally: pass".toList] = none)
+    (h2 : parseFull ["x = 1; y ".toList, "2".toList] = some tR) :
+    plan f9Lines f9Facts 0 11 = .ok f9Plan
+    ∧ handed f9Plan f9New f9Rect = ["try:   y ".toList, "2".toList, "finally: pass".toList]
+    ∧ (runRaw parse guard fix parseFull ⟨f9Lines, t⟩ f9Plan.copyLines f9New f9Rect).raised = false
+    ∧ (runRaw parse guard fix parseFull ⟨f9Lines, t⟩ f9Plan.copyLines f9New f9Rect).self
+        = ⟨["x = 1; y ".toList, "2".toList], tR⟩ := by
+  have hh : putSrc f9Plan.copyLines f9New f9Rect = ["try:   y ".toList, "2".toList, "finally: pass".toList] := by decide
+  have hs : putSrc f9Lines f9New f9Rect = ["x = 1; y ".toList, "2".toList] := by decide
+  refine ⟨by rfl, hh, ?_⟩
+  rcases runRaw_cases parse guard fix parseFull ⟨f9Lines, t⟩ f9Plan.copyLines f9New f9Rect with
+    ⟨w', hp, _, _⟩ | ⟨t', hf, e⟩ | ⟨hf, _⟩
+  · rw [hh, h1] at hp; cases hp
+  · simp only at hf; rw [hs, h2] at hf; cases hf
+    rw [e]; exact ⟨rfl, by rw [hs]⟩
+  · simp only at hf; rw [hs, h2] at hf; cases hf
 
 /-! ## `clip_src_loc` and the returned end -/
 
@@ -487,7 +635,7 @@ example : (reparseTree okOff f6Mode okZip okSub).tree = okFull := by
   have pl : ParseLocal okOff f6Mode okZip okSub okFull okZip.ctx :=
     ⟨by rfl, .cons ⟨rfl, by rfl, by rfl, by simp only [startsBefore, okOff, paramsOffset]; decide⟩
                   (.cons ⟨rfl, rfl, rfl, trivial⟩ .nil)⟩
-  refine reparse_eq_full_partial okOff f6Mode okZip okSub okFull rfl rfl _ pl ?_
+  refine reparse_eq_full_partial okOff f6Mode okZip okSub okFull rfl (by decide) _ pl ?_
   refine .cons ?_ (.cons (by simp only [FrameEndStable]) .nil)
   simp only [FrameEndStable, okOff, paramsOffset, movePt]; decide
 
@@ -504,8 +652,9 @@ namespace Pfst.C10
 open Pfst.Raw Pfst.Modifying
 
 /-- One raw put restores the registry exactly, whether it returns, the parser refuses, or `enter()` itself refuses. -/
-theorem raw_put_registry_restored {T W : Type} (parse : Lines → Option W) (fix : T → W → T) (w : World T) (e : Edit)
-    (hwf : w.reg.wf = true) : (rawPut parse fix w e).1.reg = w.reg := by
+theorem raw_put_registry_restored {T W : Type} (parse : Lines → Option W) (guard : W → Bool) (fix : T → W → T)
+    (parseFull : Lines → Option T) (w : World T) (e : Edit) (hwf : w.reg.wf = true) :
+    (rawPut parse guard fix parseFull w e).1.reg = w.reg := by
   unfold rawPut
   split
   · rfl
@@ -513,28 +662,31 @@ theorem raw_put_registry_restored {T W : Type} (parse : Lines → Option W) (fix
     have h := (enter_then_exit e.node true false w.reg reg1 hwf he).2
     simp only [h]
 
-/-- From an empty registry a raw put fails only with the parser's exception, exactly when the parser refuses the text
-handed to it — never with the registry's `RuntimeError('nested modification ...')`. -/
-theorem raw_put_outcome {T W : Type} (parse : Lines → Option W) (fix : T → W → T) (st : St T) (e : Edit) :
-    (rawPut parse fix ⟨st, []⟩ e).2 =
-      if (parse (putSrc (e.copyOf st.lines) e.new e.rect)).isSome then none else some (Exc.user true) := by
+/-- From an empty registry a raw put fails only with the parser's exception, exactly when `_reparse_raw` raises (that is,
+by `raw_refuses_only_invalid`, only when the whole new source is invalid) — never with the registry's
+`RuntimeError('nested modification ...')`. -/
+theorem raw_put_outcome {T W : Type} (parse : Lines → Option W) (guard : W → Bool) (fix : T → W → T)
+    (parseFull : Lines → Option T) (st : St T) (e : Edit) :
+    (rawPut parse guard fix parseFull ⟨st, []⟩ e).2 =
+      if (runRaw parse guard fix parseFull st (e.copyOf st.lines) e.new e.rect).raised then some (Exc.user true) else none := by
   have he : enter e.node true false [] = .ok [(e.node.root, (e.node.node, 1))] := rfl
   have hx := (enter_then_exit e.node true false [] _ rfl he).2
   unfold rawPut
   simp only [he, hx]
-  cases hp : parse (putSrc (e.copyOf st.lines) e.new e.rect) <;> simp [runBase, hp]
 
 /-- **raw_seq_registry_empty**: after ANY history of raw puts (accepted and refused, on any nodes, any texts) that starts
 with an empty registry, the registry is empty again. -/
-theorem raw_seq_registry_empty {T W : Type} (parse : Lines → Option W) (fix : T → W → T) (st : St T) (es : List Edit) :
-    (runSeq parse fix ⟨st, []⟩ es).1.reg = [] := by
+theorem raw_seq_registry_empty {T W : Type} (parse : Lines → Option W) (guard : W → Bool) (fix : T → W → T)
+    (parseFull : Lines → Option T) (st : St T) (es : List Edit) :
+    (runSeq parse guard fix parseFull ⟨st, []⟩ es).1.reg = [] := by
   induction es generalizing st with
   | nil => rfl
   | cons e es ih =>
-    have h := raw_put_registry_restored parse fix ⟨st, []⟩ e rfl
+    have h := raw_put_registry_restored parse guard fix parseFull ⟨st, []⟩ e rfl
     simp only [runSeq]
-    have hw : rawPut parse fix ⟨st, []⟩ e = (⟨(rawPut parse fix ⟨st, []⟩ e).1.st, []⟩, (rawPut parse fix ⟨st, []⟩ e).2) := by
-      rcases hr : rawPut parse fix ⟨st, []⟩ e with ⟨⟨s1, r1⟩, o⟩
+    have hw : rawPut parse guard fix parseFull ⟨st, []⟩ e
+        = (⟨(rawPut parse guard fix parseFull ⟨st, []⟩ e).1.st, []⟩, (rawPut parse guard fix parseFull ⟨st, []⟩ e).2) := by
+      rcases hr : rawPut parse guard fix parseFull ⟨st, []⟩ e with ⟨⟨s1, r1⟩, o⟩
       rw [hr] at h
       simp only at h
       subst h
@@ -544,15 +696,16 @@ theorem raw_seq_registry_empty {T W : Type} (parse : Lines → Option W) (fix : 
 
 /-- **raw_seq_no_registry_error**: in such a history no step ever fails because of an earlier step: every outcome is
 "returned" or the parser's own refusal. -/
-theorem raw_seq_no_registry_error {T W : Type} (parse : Lines → Option W) (fix : T → W → T) (st : St T)
-    (es : List Edit) : ∀ o ∈ (runSeq parse fix ⟨st, []⟩ es).2, o = none ∨ o = some (Exc.user true) := by
+theorem raw_seq_no_registry_error {T W : Type} (parse : Lines → Option W) (guard : W → Bool) (fix : T → W → T)
+    (parseFull : Lines → Option T) (st : St T) (es : List Edit) :
+    ∀ o ∈ (runSeq parse guard fix parseFull ⟨st, []⟩ es).2, o = none ∨ o = some (Exc.user true) := by
   induction es generalizing st with
   | nil => intro o ho; simp [runSeq] at ho
   | cons e es ih =>
     intro o ho
-    have h := raw_put_registry_restored parse fix ⟨st, []⟩ e rfl
-    have hout := raw_put_outcome parse fix st e
-    rcases hr : rawPut parse fix ⟨st, []⟩ e with ⟨⟨s1, r1⟩, o1⟩
+    have h := raw_put_registry_restored parse guard fix parseFull ⟨st, []⟩ e rfl
+    have hout := raw_put_outcome parse guard fix parseFull st e
+    rcases hr : rawPut parse guard fix parseFull ⟨st, []⟩ e with ⟨⟨s1, r1⟩, o1⟩
     rw [hr] at h hout
     simp only at h hout
     subst h
@@ -568,9 +721,10 @@ theorem leaky_seq_false :
     let parse : Lines → Option Nat := fun ls => if ls = [['(']] then none else some 0
     let e1 : Edit := ⟨⟨0, 1⟩, id, [['(']], ⟨0, 0, 0, 1⟩⟩
     let e2 : Edit := ⟨⟨0, 2⟩, id, [['b']], ⟨0, 0, 0, 1⟩⟩
-    let r := runSeqLeaky parse (fun (_ : Nat) w => w) ⟨⟨[['a']], 0⟩, []⟩ [e1, e2]
+    let r := runSeqLeaky parse (fun _ => true) (fun (_ : Nat) w => w) parse ⟨⟨[['a']], 0⟩, []⟩ [e1, e2]
     r.2 = [some (Exc.user true), some Exc.nested] ∧ r.1.reg ≠ [] ∧ r.1.st.lines = [['a']]
-    ∧ (runSeq parse (fun (_ : Nat) w => w) ⟨⟨[['a']], 0⟩, []⟩ [e1, e2]).2 = [some (Exc.user true), none] := by
+    ∧ (runSeq parse (fun _ => true) (fun (_ : Nat) w => w) parse ⟨⟨[['a']], 0⟩, []⟩ [e1, e2]).2
+        = [some (Exc.user true), none] := by
   decide
 
 end Pfst.C10
